@@ -42,6 +42,7 @@ def episodic(tier):
         Skel('e3-loop', [0, 1, 'g'], {0: ('a', 'b'), 1: ('b',), 'g': ('a', 'b')},
              {(0, 'a'): (0, 1), (0, 'b'): ('g',), (1, 'b'): ('g', 0), ('g', 'a'): ('g',), ('g', 'b'): ('g',)}, absorbing=['g'], init=[0, 1]),
     ]
+    F.append(M.relabel_actions(F[0], {'a': 0, 'b': ''}, 'e3-dag-falsy-actions'))     # appended last: other modules index this list by position
     return F
 
 
@@ -498,6 +499,8 @@ def tasks(tier, seed):
         for algo in ('QLearning', 'SARSA', 'ExpectedSARSA', 'DoubleQLearning'):
             for pname in PARAMS:
                 if algo == 'DoubleQLearning' and pname.startswith('softmax') and tier == 'quick':
+                    continue
+                if sk.name.endswith('falsy-actions') and pname not in ('default', 'softmax'):
                     continue
                 for ep in ((1, 2) if (tier == 'thorough' or (pname in ('default', 'softmax') and algo != 'DoubleQLearning')) else (1,)):
                     loop = sk.name == 'e3-loop'
